@@ -632,6 +632,10 @@ def corpus_resume(tier, seed, rnd):
                      precond=["none", "default"][(i // 8) % 2])
         elif kind == 3:
             c.update(min_step=0.15)
+        if c["precond"] in ("affine", "full"):
+            # data-dependent preconditioning: enough particles and iterations that the whitening is well defined
+            # before and after every resume point
+            c["N"] = 8; c["width"] = 0.3
         if i % 3 != 1:
             c["n_final"] = c["N"] * 2
             if i % 3 == 0:
